@@ -50,7 +50,13 @@ RULE = (
     "record through RecordStreamReader, RecordReader(path | fileobj | jsonfile | csvfile, selector=text | Selector), "
     "record_stream and `rdump -n -s` (refusal = raises, or for the two that swallow errors by design: no record comes out).  "
     "Inside a field-type constructor or the regex engine a named method of a value is accepted only if the value's builtin "
-    "base type has it (a str treated as a str); foreign names (decode, isoformat, read ...) are violations."
+    "base type has it (a str treated as a str); foreign names (decode, isoformat, read ...) are violations.  Family 'syntax': "
+    "argument unpacking f(*v) / f(**v) (strict: fails before any canary method), starred and dict displays, subscripts and "
+    "slices, f-strings, comparison chains, conditional, walrus, yield / await, comprehensions over canaries: no named method "
+    "of a value (keys ...) may be invoked.  Order of first use: 40 hostile shapes (generator-variable calls consumed by in / "
+    "not in / any / all / nested, ...) each as the VERY FIRST selector of a fresh child interpreter, followed by benign "
+    "selectors and a second hostile one, same oracle; in-process the class-level attributes of the selector classes are "
+    "compared before / after every evaluation (a loop variable appearing there is a violation)."
 )
 ASSUMPTIONS = [
     "a canary method called from the code of a documented helper function (lower/upper/field_*) or from a whitelisted "
@@ -130,6 +136,13 @@ for e in ["any(f() for f in [r.s.detonate])", "any(f() for f in [r.s.upper])", "
           "any(x.fn() for x in [r.o])", "any(f() for f in [lower, r.s.detonate])", "any(x for x in r.l if x.detonate())",
           "any(g() for x in [r.s] for g in [x.detonate])"]:
     _shape("genvar-callable", e)
+# generator whose element calls the loop variable, consumed by an operator instead of any() / all()
+for e in ["1 in (f(0) for f in [r.o.fn])", "1 not in (f() for f in [r.s.detonate])", '"x" in (x.detonate() for x in [r.s])',
+          "1 in (string() for string in [r.o.fn])", "1 in (g() for x in [r.s] for g in [x.detonate])", "r.s in (f(0) for f in [r.o.fn])",
+          "0 < 1 in (f() for f in [r.o.fn])", "not (1 in (f() for f in [r.o.fn]))", "r.n + (1 in (f() for f in [r.o.fn]))",
+          "1 in (f() for f in [r.s.detonate] if True)", "lower(1 in (f() for f in [r.o.fn]))"]:
+    _shape("genvar-callable", e)
+_shape("genvar-callable", "(f() for f in [r.o.fn]) == 1", ev=False)
 # generator variable shadowing a helper, str/repr/any/all, a whitelisted type root, r / Type
 for e in ["any(lower() for lower in [r.s.detonate])", "any(upper(1) for upper in [r.o.fn])", "any(str() for str in [r.s.detonate])",
           "any(names() for names in [r.s.detonate])", "any(fields() for fields in [r.s.detonate])"]:
@@ -297,6 +310,45 @@ SWALLOWING = ("record_stream", "rdump -n -s")  # catch the refusal by design: th
 ENTRY_CONTEXTS = ["{H}", "({H}) == 1", "True and ({H})", "any(({H}) for q in [1, 2])"]
 ENTRY_EXTRA_SHAPES = ['Type.uri.filename.__class__ == "x"', "r._desc.__init__ == 1", 'r.s == "nope" or r.o.__reduce_ex__ == 1',
                       "lower(r.s.__doc__) == 1", 'field_contains(r, ["s"], ["x"], nocase=r.o.__class__)', "r.s.__class__.__mro__", "r.o.__trip__ == 1"]
+
+# ---- call syntax and other constructs applied to record values ---------------------------------------------------------
+# (expression, strict): strict = the construct is an argument unpacking in a call, which the documented language does not
+# have: it has to fail before ANY canary method (named or special) runs; for the others the universal rules apply (no named
+# method of a value is invoked by the interpreter - `**mapping` would call .keys() -, no forbidden shape is accepted)
+SYNTAX_SHAPES = [
+    ("str(*r.o)", True), ("str(**r.o)", True), ("str(**r.p)", True), ("repr(**r.s)", True), ("lower(*r.l)", True), ("lower(*[r.s])", False),
+    ("lower(r.s, *r.l)", True), ("str(*[1], **r.o)", True), ('field_contains(r, ["s"], ["a"], **r.o)', False), ("string(**r.o)", True),
+    ("net.ipaddress(*r.o)", True), ("any(repr(**item) for item in r.l)", False), ("any(str(**x) for x in [r.o, r.p])", False),
+    ("all(lower(*x) for x in [r.l])", False), ('str(*[1], **{"k": r.s})', False), ("upper(**r.o.child)", True), ("name(*r.p)", True),
+    ("str(x=r.s.detonate())", False), ("lower(s=r.o.fn())", False), ("str(**r.o.fn())", False), ("str(*r.s.detonate())", False),
+    ("[*r.o]", False), ("[*r.l] == 1", False), ("(*r.p,)", False), ("{*r.l}", False), ("{**r.o}", False), ("{r.s: 1}", False),
+    ('{"a": r.o}["a"]', False), ("[1, *r.p, 2] == 1", False), ("r.o[0]", False), ("r.l[0] == 1", False), ("r.s[1:2]", False),
+    ("r.p[r.n:r.n]", False), ('r.o["k"]', False), ("r.l[r.n]", False), ("r.p[0].detonate()", False), ('f"{r.o!r:{r.n}}"', False),
+    ('f"{r.s}" == "x"', False), ('f"{r.p:>{r.n}}" == "x"', False), ('f"{r.o.fn()}"', False), ("r.n < r.o < r.p", False), ("r.s == r.t == r.o", False),
+    ("1 < r.p < 3", False), ("r.o if r.s else r.p", False), ("(r.o if r.p else r.s) == 1", False), ("(r.s.detonate() if r.s else 1)", False),
+    ("(y := r.o)", False), ("(y := r.s.detonate())", False), ("(y := r.o) and y.fn()", False), ("(yield r.o)", False), ("(yield from r.l)", False),
+    ("(await r.o)", False), ("-r.p", False), ("~r.n", False), ("r.p @ r.p", False), ("r.l[::-1]", False), ("[x for x in r.l]", False),
+    ("{x: 1 for x in r.l}", False), ("[x.detonate() for x in r.l]", False), ("(lambda **k: 1)(**r.o)", False), ("str(*r.l, sep=r.o)", True),
+]
+SYNTAX_RECORDS = ("real-canary", "standin", "real-typed")
+# order of first use: the very first selector a fresh interpreter evaluates is one of these, then benign ones, then another
+COLD_FIRST = [
+    "1 in (f(0) for f in [r.o.fn])", "1 not in (f() for f in [r.s.detonate])", '"x" in (x.detonate() for x in [r.s])',
+    "1 in (string() for string in [r.o.fn])", "1 in (lower() for lower in [r.s.detonate])", "1 in (g() for x in [r.s] for g in [x.detonate])",
+    "any(1 in (f() for f in [x.detonate]) for x in [r.s])", "1 in (f() for f in [r.s.detonate] if True)", "r.s in (f(0) for f in [r.o.fn])",
+    "(1 in (f() for f in [r.o.fn])) and lower(r.s)", "0 < 1 in (f() for f in [r.o.fn])", "1 not in (f(r) for f in [r.o.fn])",
+    "(f() for f in [r.o.fn]) == 1", "[1] == [(f() for f in [r.o.fn])]", "any(f() for f in [r.s.detonate])", "all(f() for f in [r.o.fn])",
+    "any(x.detonate() for x in [r.s])", "any(any(g() for g in [x.detonate]) for x in [r.s])", "any(string() for string in [r.s.detonate])",
+    "1 in (net.ipaddress(1) for net in [r.o])", "1 in (str() for str in [r.o.fn])", "1 in (r.fn() for r in [r.o])",
+    "1 in (f() for f in [lambda: 1])", "1 in (x.fn() for x in [r.o])", "1 in ((f() for f in [r.o.fn]))", "not (1 in (f() for f in [r.o.fn]))",
+    "(1 in (f() for f in [r.o.fn])) == True", "1 in (f() for f in (r.o.fn,))", "1 in (f() for f in r.o.items)", "r.s.detonate()", "(r.o.fn or 1)()",
+    "r.s.__trip__", "__class__", "lower(r.s).detonate()", "str(**r.o)", 'Type.string.poke == "x"', "r.o.fn(str(r.s))", "[r.o.fn][0]()",
+    "r.n + (1 in (f() for f in [r.o.fn]))", "lower(1 in (f() for f in [r.o.fn]))",
+]
+COLD_NOT_EVALUATED = {"(f() for f in [r.o.fn]) == 1", "[1] == [(f() for f in [r.o.fn])]"}  # the generator is never consumed
+COLD_BENIGN = ['lower(r.s) == "abc def"', "any(x for x in r.l)", "r.n + 1 > 2", 'string("k") == "k"', '"a1" in r.l', "str(r.n)"]
+COLD_SECOND = ["any(f(0) for f in [r.o.fn])", "all(f() for f in [r.s.detonate])", "any(x.detonate() for x in [r.s])",
+               "1 in (f() for f in [r.o.fn])", "any(string() for string in [r.o.fn])", "r.s.detonate()"]
 
 # ---- allowed shapes (negative controls) ---------------------------------------------------------------
 CONTROLS = [
@@ -497,6 +549,16 @@ def generate(ctx):
         for j, entry in enumerate(ENTRY_FILE):
             if ctx.mine(si * (len(ENTRY_FILE) + 1) + j):  # rotate, so that every shard drives every entry point
                 yield {"k": "entryfile", "expr": e, "ev": bool(ev), "shape": name, "scat": cat, "entry": entry}
+    for e, strict in SYNTAX_SHAPES:
+        for ci, c in enumerate(ARG_CONTEXTS):
+            for rk in SYNTAX_RECORDS:
+                if ctx.mine(idx):
+                    yield {"k": "syntax", "expr": c.replace("{H}", e), "ev": True, "rec": rk, "shape": e, "scat": "call-syntax", "ctx": "argctx#%d" % ci,
+                           "ccat": "syntax", "strict": bool(strict), "acat": "unpacking", "pos": "call"}
+                idx += 1
+    for fi, first in enumerate(COLD_FIRST):
+        if ctx.mine(fi + (ctx.seed % 7)):
+            yield {"k": "coldfirst", "first": first, "second": COLD_SECOND[(fi + ctx.seed) % len(COLD_SECOND)], "rec": ("standin", "real-canary")[fi % 2]}
     for t in TYPED_TYPES:
         for a in TYPED_ATTRS:
             for fi, f in enumerate(TYPED_FORMS):
@@ -694,6 +756,8 @@ def execute(ctx, case):
         ctx.current_case = case
     if case["k"] == "entryfile":
         run_entry_file(ctx, case)
+    elif case["k"] == "coldfirst":
+        run_cold_first(ctx, case)
     else:
         run_case(ctx, case)
 
@@ -814,6 +878,77 @@ def run_entry_file(ctx, case):
     ctx.nontrivial(entry, expr)
 
 
+def run_cold_first(ctx, case):
+    """Order of first use: a fresh interpreter whose very first selector is the hostile shape, then benign selectors, then a
+    second hostile one.  Oracle as in-process: evaluated forbidden shape => raises; no named canary method is invoked by
+    interpreter code in any of the evaluations."""
+    import json
+    import os
+    import subprocess
+    import sys
+
+    exprs = [case["first"]] + COLD_BENIGN + [case["second"], case["first"]]
+    try:
+        p = subprocess.run([sys.executable, "-W", "ignore", "-m", "verif.child_c09"], input=json.dumps({"rec": case["rec"], "exprs": exprs}),
+                           capture_output=True, text=True, timeout=300, cwd=os.path.dirname(os.path.dirname(os.path.dirname(os.path.abspath(__file__)))))
+        if p.returncode != 0:
+            raise RuntimeError("child exited with %s: %s" % (p.returncode, p.stderr[-400:]))
+        results = json.loads(p.stdout)["results"]
+    except Exception as e:  # noqa: BLE001 - infrastructure, never a verdict
+        ctx.event("cold_child_failed")
+        ctx.note("cold_child_error", [repr(e)[:300]])
+        return
+    ctx.event("cold_children")
+    for i, (expr, res) in enumerate(zip(exprs, results)):
+        ctx.ev()
+        role = "first" if i == 0 else ("benign" if expr in COLD_BENIGN else "later-hostile")
+        detail = {"expression": expr, "position_in_fresh_interpreter": i, "role": role, "first_selector_of_the_process": case["first"],
+                  "record": case["rec"], "outcome": res}
+        try:
+            forb = refselector.sandbox_forbidden(expr)
+        except SyntaxError:
+            continue
+        if res["interpreter_calls"]:
+            ctx.violation(CLASSIFY.get("genvar-callable"), "the interpreter invoked a method of a value (fresh interpreter, order of first use)",
+                          detail=dict(detail, calls=res["interpreter_calls"][:6]))
+        if role != "benign" and forb and expr not in COLD_NOT_EVALUATED:
+            ctx.event("cold_forbidden_evaluated")
+            if res["raised"] is None:
+                ctx.violation(None, "an expression with a forbidden shape was accepted (fresh interpreter, order of first use)", detail=detail)
+            else:
+                ctx.event("cold_refused")
+        if role == "benign":
+            ctx.event("cold_benign:" + ("raised" if res["raised"] else "returned"))
+        ctx.nontrivial("coldfirst", case["first"], expr, i, case["rec"])
+    ctx.cell("order-of-first-use", case["rec"])
+
+
+def class_state(ctx):
+    """Class-level attributes of the selector classes (a lazily filled process-wide cache shows up here)."""
+    S = ctx.state["selector"]
+    out = {}
+    for cname in ("RecordContextMatcher", "Selector", "TypeMatcher", "TypeMatcherInstance", "WrappedRecord", "NoneObject"):
+        cls = getattr(S, cname, None)
+        if cls is None:
+            continue
+        for k, v in list(vars(cls).items()):
+            if k.startswith("__") or callable(v) or isinstance(v, (property, staticmethod, classmethod)):
+                continue
+            out["%s.%s" % (cname, k)] = v
+    return out
+
+
+def names_in(v, depth=0):
+    if isinstance(v, str):
+        return {v}
+    if depth < 3 and isinstance(v, (set, frozenset, list, tuple, dict)):
+        acc = set()
+        for x in v:
+            acc |= names_in(x, depth + 1)
+        return acc
+    return set()
+
+
 def run_case(ctx, case):
     selector = ctx.state["selector"]
     cw = ctx.state["cw"]
@@ -824,8 +959,8 @@ def run_case(ctx, case):
     except (SyntaxError, ValueError, RecursionError):
         ctx.event("skipped_unparsable")
         return
-    hostile = case["k"] == "hostile"
-    if hostile and not forb and case["ev"]:
+    hostile = case["k"] == "hostile" or (case["k"] == "syntax" and bool(forb))
+    if case["k"] == "hostile" and not forb and case["ev"]:
         ctx.event("skipped_model_finds_nothing")  # random composition only; the enumerated table is self-tested
         return
     if not hostile and forb:
@@ -836,6 +971,7 @@ def run_case(ctx, case):
 
     rec = get_record(ctx, case["rec"])
     before = observation(rec)
+    cls_before = class_state(ctx)
     ctx.ev()
     refused_at = None
     raised = None
@@ -870,6 +1006,18 @@ def run_case(ctx, case):
                 log = cn.disarm()
             calls = cw.drain()
     after = observation(rec)
+    cls_after = class_state(ctx)
+    for k in set(cls_before) | set(cls_after):
+        a, b = cls_before.get(k, "<absent>"), cls_after.get(k, "<absent>")
+        if a is b or (type(a) is type(b) and a == b):
+            continue
+        # class-level state changed during an evaluation: reported; a violation when it took in a loop variable of this expression
+        ctx.event("class_state_changed:" + k)
+        targets = {g.target.id for n in ast.walk(tree) if isinstance(n, ast.GeneratorExp) for g in n.generators if isinstance(g.target, ast.Name)}
+        leaked = sorted(targets & names_in(b))
+        if leaked:
+            ctx.violation(CLASSIFY.get("genvar-callable"), "a generator variable of the expression ended up in class-level state of the selector engine",
+                          detail={"expression": expr, "attribute": k, "leaked_names": leaked, "before": repr(a)[:200], "after": repr(b)[:300]})
 
     ctx.event("entry:" + entry)
     detail = {"expression": expr, "record": case["rec"], "entry_point": entry, "policy_model": [list(x) for x in forb][:6], "evaluated_position": must_raise,
@@ -968,6 +1116,9 @@ def run_case(ctx, case):
         else:
             ctx.event("forbidden_in_unevaluated_position")
             ctx.event("unevaluated:" + ("raised" if raised is not None else "returned"))
+    elif case["k"] == "syntax":
+        ctx.event("syntax_cases_without_forbidden_shape")
+        ctx.event("syntax:" + ("raised" if raised is not None else "returned"))
     elif case["k"] == "typedmatch":
         ctx.event("typed_matcher_cases")
         ctx.event("typed_matcher:" + ("raised" if raised is not None else "returned"))
@@ -1029,6 +1180,8 @@ def finish(ctx):
         if entry.startswith("explain") and not ctx.state["has_explain"]:
             continue
         ctx.require(ev["entry:" + entry] > 0, "entry point %s was never driven" % entry)
+    ctx.require(ev["cold_children"] > 0 and ev["cold_forbidden_evaluated"] > 0, "no order-of-first-use child interpreter ran")
+    ctx.require(ev["syntax_cases_without_forbidden_shape"] > 0, "the call-syntax family did not run")
     ctx.require(ev["typed_matcher_cases"] > 0 and ev["callwatch:interpreter:interpreter-internal"] > 0, "the typed-matcher family did not run")
     ctx.require(ev["helper_argument_cases"] > 0 and ev["canary_named_call_documented:lower->lower"] > 0,
                 "the helper-with-canary-argument family did not run, or the documented lower()->.lower call was never observed")
